@@ -628,15 +628,18 @@ Fixpoint state_stop (st : sstate) (s : sess) : sess * sstate :=
 
 (* ---------- stateMachine (session_state.go) ---------- *)
 
-(* handleDisconnectState + onDisconnect, with `dr` = drainMessageIn *)
+(* handleDisconnectState + onDisconnect, with `dr` = drainMessageIn.  What is buffered in messageIn is handled first, in the
+   state the session is still in (fix: drain before notifying); if one of those frames has already disconnected the session,
+   nothing more is done. *)
 Definition handle_disconnect_state (dr : sess -> sess) (s : sess) : sess :=
-  let do_on_logout := is_logged_on (s_st s)
-                      || match s_st s with SLogout => true | SLogon => initiator s | _ => false end in
-  let s1 := if do_on_logout then log_cb s CbOnLogout else s in
+  let s0 := dr s in
+  if is_connected (s_st s) && negb (is_connected (s_st s0)) then s0 else
+  let do_on_logout := is_logged_on (s_st s0)
+                      || match s_st s0 with SLogout => true | SLogon => initiator s0 | _ => false end in
+  let s1 := if do_on_logout then log_cb s0 CbOnLogout else s0 in
   let s2 := if c_reset_on_disconnect (s_cfg s1) then drop_and_reset s1 else s1 in
   let s3 := if s_out_open s2 then upd_chan s2 false (s_in_open s2) (s_in_buf s2) true else s2 in
-  let s4 := dr s3 in
-  upd_chan s4 (s_out_open s4) false [] (s_closed s4).
+  upd_chan s3 (s_out_open s3) false [] (s_closed s3).
 
 Definition set_state_with (dr : sess -> sess) (s : sess) (next : sstate) : sess :=
   if negb (is_connected next) then
